@@ -116,12 +116,57 @@ func TestVerifReplayC14Root(t *testing.T) {
 		}(g)
 	}
 	wg.Wait()
+	// the CSS middleware: every request behind one middleware value gets the document a lone request gets (the
+	// registries of a render are its own), sequentially and concurrently
+	{
+		unreg := ComponentCSSClass{ID: "unreg_1", Class: SafeCSS(".unreg_1{color:red;}")}
+		reg := ComponentCSSClass{ID: "reg_1", Class: SafeCSS(".reg_1{color:blue;}")}
+		page := ComponentFunc(func(ctx context.Context, w io.Writer) error {
+			if err := RenderCSSItems(ctx, w, unreg, reg); err != nil {
+				return err
+			}
+			_, err := io.WriteString(w, "<p class=\"unreg_1 reg_1\">x</p>")
+			return err
+		})
+		get := func(h http.Handler) string {
+			w := &verifSlowRW{hdr: http.Header{}}
+			h.ServeHTTP(w, httptest.NewRequest("GET", "/page", nil))
+			return w.body.String()
+		}
+		want := get(NewCSSMiddleware(Handler(page), reg))
+		mw := NewCSSMiddleware(Handler(page), reg)
+		for i := 1; i <= 2; i++ {
+			if got := get(mw); got != want {
+				select {
+				case bad <- fmt.Sprintf("request %d behind one CSS middleware received %q, a lone request receives %q", i, got, want):
+				default:
+				}
+			}
+		}
+		var wg2 sync.WaitGroup
+		for g := 0; g < 8 && len(bad) == 0; g++ {
+			wg2.Add(1)
+			go func() {
+				defer wg2.Done()
+				for i := 0; i < 50; i++ {
+					if got := get(mw); got != want {
+						select {
+						case bad <- fmt.Sprintf("a concurrent request behind one CSS middleware received %q, a lone request receives %q", got, want):
+						default:
+						}
+						return
+					}
+				}
+			}()
+		}
+		wg2.Wait()
+	}
 	close(bad)
 	for m := range bad {
 		fmt.Println("REPLAY-CONFIRMED concurrent requests interfere: " + m)
 		return
 	}
-	fmt.Println("REPLAY-NOT-REPRODUCED bounded run: 8 goroutines x 150 requests through templ.Handler with slow writers, race detector on")
+	fmt.Println("REPLAY-NOT-REPRODUCED bounded run: 8 goroutines x 150 requests through templ.Handler with slow writers, 2 + 8 x 50 requests behind one CSS middleware, race detector on")
 }
 `
 
@@ -137,7 +182,7 @@ func replayC14(r *Run, o *Obligation) *ReplayResult {
 			if strings.Contains(out2, "WARNING: DATA RACE") || strings.Contains(out2, "REPLAY-CONFIRMED") || !strings.Contains(out2, "REPLAY-NOT-REPRODUCED") {
 				out = out2
 			} else {
-				out = strings.Replace(out, "race detector on", "race detector on; 8 goroutines x 150 requests through templ.Handler with slow writers", 1)
+				out = strings.Replace(out, "race detector on", "race detector on; 8 goroutines x 150 requests through templ.Handler with slow writers, 2 + 8 x 50 requests behind one CSS middleware", 1)
 			}
 		}
 		r.replayOut["C14"] = out
